@@ -273,9 +273,10 @@ def gen_mesh(src, ndims=None, max_levels=3, max_blocks0=3, max_boxes=24, bfs=(2,
     nb0 = [src.draw(f"{tag}.blocks0.{d}", minb, max(minb, max_blocks0)) for d in range(nd)]
     # geometry
     if aniso and src.flag(f"{tag}.aniso"):
-        cell0 = [src.choice(f"{tag}.dx0.{d}", [0.125, 0.25, 0.5, 0.0625, 0.1, 0.3]) for d in range(nd)]
+        cell0 = [src.choice(f"{tag}.dx0.{d}", [0.125, 0.25, 0.5, 0.0625, 0.1, 0.3, 1.0 / 3, 1.0 / 12, 1.0 / 7])
+                 for d in range(nd)]
     else:
-        c = src.choice(f"{tag}.dx0", [0.125, 0.25, 0.1, 0.002])
+        c = src.choice(f"{tag}.dx0", [0.125, 0.25, 0.1, 0.002, 1.0 / 12, 1.0 / 30])
         cell0 = [c] * nd
     n0 = [bf * k for k in nb0]
     length = [cell0[d] * n0[d] for d in range(nd)]
@@ -438,7 +439,7 @@ SPECIALS = np.array([np.nan, np.inf, -np.inf, -0.0, 5e-324, 2.2250738585072014e-
                      1.7976931348623157e308, -1.7976931348623157e308])
 
 
-def fill_random(m, data_seed, special=False, scale=1.0):
+def fill_random(m, data_seed, special=False, scale=1.0, zeros=False):
     """Unique-per-cell payloads from one 64-bit seed."""
     rng = np.random.default_rng(data_seed)
     nf = len(m.fields)
@@ -461,6 +462,14 @@ def fill_random(m, data_seed, special=False, scale=1.0):
                     bits = flat.view(np.uint64)
                     bits[nanpos] = np.uint64(0x7ff8000000000000) | rng.integers(
                         1, 1 << 20, len(nanpos)).astype(np.uint64)
+            if zeros:
+                # whole components of whole boxes exactly +0.0 / -0.0 (masked or not-yet-computed fields)
+                for k in range(nf):
+                    z = rng.integers(0, 4)
+                    if z == 0:
+                        arr[..., k] = 0.0
+                    elif z == 1:
+                        arr[..., k] = -0.0
             lvd.append(arr)
         m.data.append(lvd)
     return m
@@ -541,7 +550,7 @@ def gen_scale_world(src, cls, tag="w"):
     return m
 
 
-def gen_world(src, tag="w", special_ok=True, scale=(), scale_rate=24, **mesh_kw):
+def gen_world(src, tag="w", special_ok=True, scale=(), scale_rate=24, lowprec_ok=False, **mesh_kw):
     if scale:
         k = src.draw(f"{tag}.scale", 0, scale_rate * len(scale) - 1)
         if k < len(scale) and not (mesh_kw.get("force_3d") and scale[k] in ()) :
@@ -561,7 +570,15 @@ def gen_world(src, tag="w", special_ok=True, scale=(), scale_rate=24, **mesh_kw)
     m.fields = gen_fields(src, tag=tag, nmax=12 if big else 6)
     gen_layout(src, m, tag=tag, max_files=7 if big else 4)
     special = special_ok and src.flag(f"{tag}.special", 4)
-    fill_random(m, src.u64(f"{tag}.dataseed") if False else src.draw(f"{tag}.dataseed", 0, 999999), special=special)
+    zeros = src.flag(f"{tag}.zero_boxes", 5)
+    if lowprec_ok and src.flag(f"{tag}.lowprec", 5):
+        # geometry as a writer with 6 significant digits would print it (dx * n != hi - lo exactly)
+        r6 = lambda v: float("%.6g" % v)
+        m.geo_low = [r6(v) for v in m.geo_low]
+        m.geo_high = [r6(v) for v in m.geo_high]
+        m.dx = [[r6(v) for v in d] for d in m.dx]
+        m.lowprec = True
+    fill_random(m, src.draw(f"{tag}.dataseed", 0, 999999), special=special, zeros=zeros)
     gen_cosmetics(src, m, tag)
     return m
 
